@@ -711,6 +711,22 @@ def gen(rng, tier, profile, count, schemes=ALL):
             cases.append(make_c19_case(rng, "c19-%s-%d" % (scheme, k), scheme, tier, rung))
             k += 1
         return cases
+    if profile == "c18big":
+        # sizes at which data-parallel code starts to split its work (chunks of 128 and more elements, several blocks per
+        # thread): every scheme once per round, at the top of the size ladder
+        _C19_COUNT.clear()
+        for k in range(count):
+            scheme = schemes[k % len(schemes)]
+            if scheme in UNIVARIATE:
+                rung = 8 if scheme != "ligero_uni" else 10
+            elif scheme == "pst13":
+                rung = 6
+            else:
+                rung = 10
+            c = make_c19_case(rng, "c18big-%s-%d" % (scheme, k), scheme, tier, rung)
+            c.fields.pop("c19", None)
+            cases.append(c)
+        return cases
     if profile == "c17domain":
         for k in range(count):
             scheme = ("marlin", "sonic", "pst13", "ipa", "hyrax")[k % 5]
